@@ -180,7 +180,15 @@ pub struct OracleFailure {
 }
 
 /// Output of an engine run: the cases for the model, the implementation's answers, statistics.
+/// A failure that only counts if the model (the strict RFC Spec) disagrees with the expected answer
+/// recorded for request line `line` (0-based): used where libzstd is too lenient to be the referee.
+pub struct CondFailure {
+    pub line: usize,
+    pub failure: OracleFailure,
+}
+
 pub struct Run {
+    pub cond_failures: Vec<CondFailure>,
     pub engine: &'static str,
     pub cases: Vec<String>,
     pub impl_out: Vec<String>,
@@ -193,7 +201,7 @@ pub struct Run {
 
 impl Run {
     pub fn new(engine: &'static str) -> Self {
-        Run { engine, cases: vec![], impl_out: vec![], oracle_failures: vec![], oracle_checks: 0, stats: vec![], samples: vec![], notes: vec![] }
+        Run { cond_failures: vec![], engine, cases: vec![], impl_out: vec![], oracle_failures: vec![], oracle_checks: 0, stats: vec![], samples: vec![], notes: vec![] }
     }
     pub fn case(&mut self, line: String, out: String) {
         debug_assert!(!line.contains('\n') && !out.contains('\n'));
@@ -210,6 +218,13 @@ impl Run {
     pub fn fail(&mut self, property: &str, signature: &str, what: String, replay: String) {
         if self.oracle_failures.len() < 200 {
             self.oracle_failures.push(OracleFailure { property: property.to_string(), what, replay, signature: signature.to_string() });
+        }
+    }
+    /// record a failure conditional on the model's answer to the LAST pushed case differing from the expected one
+    pub fn cond_fail(&mut self, property: &str, signature: &str, what: String, replay: String) {
+        if self.cond_failures.len() < 200 && !self.cases.is_empty() {
+            let line = self.cases.len() - 1;
+            self.cond_failures.push(CondFailure { line, failure: OracleFailure { property: property.to_string(), what, replay, signature: signature.to_string() } });
         }
     }
     pub fn write(&self, dir: &str) -> std::io::Result<()> {
@@ -247,6 +262,20 @@ impl Run {
                 j,
                 "{}\n    {{\"property\": {}, \"signature\": {}, \"what\": {}, \"replay\": {}}}",
                 if i > 0 { "," } else { "" },
+                json_str(&o.property),
+                json_str(&o.signature),
+                json_str(&o.what),
+                json_str(&o.replay)
+            );
+        }
+        j.push_str("],\n  \"conditional_failures\": [");
+        for (i, c) in self.cond_failures.iter().enumerate() {
+            let o = &c.failure;
+            let _ = write!(
+                j,
+                "{}\n    {{\"line\": {}, \"property\": {}, \"signature\": {}, \"what\": {}, \"replay\": {}}}",
+                if i > 0 { "," } else { "" },
+                c.line,
                 json_str(&o.property),
                 json_str(&o.signature),
                 json_str(&o.what),
